@@ -260,8 +260,9 @@ def sso_case(draw):
         e = 10 ** draw(f(-6, -1))
     else:
         e = draw(fu(0.1, 0.85))
-    # u = fraction of the largest semi-major axis that still has a solution (cos i = -1)
-    return dict(e=e, u=draw(fu(0.3, 0.9999)), dt=draw(fu(3600.0, 20 * 86400.0)),
+    # u places a between a lower bound and the largest semi-major axis that still has a solution
+    # (cos i = -1); phys: lower bound = perigee 150 km above the surface when such solutions exist
+    return dict(e=e, u=draw(fu(0.0, 1.0)), phys=draw(st.integers(0, 9)) < 7, dt=draw(fu(3600.0, 20 * 86400.0)),
                 raan=draw(fu(0, TWO_PI - 1e-9)), argp=draw(fu(0, TWO_PI - 1e-9)), M=draw(fu(0, TWO_PI - 1e-9)))
 
 
@@ -275,7 +276,10 @@ def check_sso(case):
     w_sun = TWO_PI / SIDEREAL_YEAR
     cst = math.sqrt(Earth.mu) * Earth.r**2 * Earth.J2
     a_max = (1.5 * cst / (w_sun * (1 - e * e) ** 2)) ** (2 / 7)
-    a = a_max * case["u"]
+    a_lo = 0.3 * a_max
+    if case["phys"] and (Earth.r + 150e3) / (1 - e) < 0.95 * a_max:
+        a_lo = (Earth.r + 150e3) / (1 - e)
+    a = a_lo + (0.9999 * a_max - a_lo) * case["u"]
     parts = {}
 
     i = float(sso(a=a, e=e))
@@ -573,7 +577,7 @@ def check_beta(case):
         raise Violation("beta-range", f"beta = {b}")
     k = 1 / (1 - el["e"]) if el["e"] < 1 else math.cosh(el["anom"]) ** 2
     # asin loses eps / cos(beta) near the poles (at most sqrt(2 eps)); form conversions lose eps * kappa
-    eps = 1e-15 * (1 + (k if case["form"] != "cartesian" else 0))
+    eps = 1e-13 * (1 + (k if case["form"] != "cartesian" else 0))
     tol = 1e-9 + min(math.sqrt(2 * eps), eps / max(math.cos(want), 1e-300))
     if ref == "orbit":
         tol += 1e-9 / (1 - case["ref_el"]["e"])  # the library's own Kepler propagation of the other spacecraft
@@ -711,3 +715,15 @@ FACETS = [
           rule="every case: S, T, R, B, e, h, theta against the perifocal closed forms",
           quick=(4, 800), thorough=(8, 10000)),
 ]
+
+
+# Only consulted for keys listed in KNOWN_FINDINGS.txt (the proposed fixes scratch/fixes/C19-2/3.patch
+# make both unnecessary).
+FINDINGS = {
+    # sso(a=, i=) returns NaN for the circular solution: 1 - sqrt(X) = -1e-16 under the square root
+    "sso-circular-nan": lambda facet, case, kind, msg, data:
+        facet == "sso" and kind == "sso-inverse-e-nan" and case["e"] < 1e-7,
+    # beta() returns NaN when the other body sits on the orbit normal: asin(1 + 2e-16)
+    "beta-on-normal-nan": lambda facet, case, kind, msg, data:
+        facet == "beta" and kind == "beta-nonfinite" and case["ref"] == "aligned" and case["tilt"] < 1e-7,
+}
